@@ -316,6 +316,20 @@ def sweep(tier: str) -> Sweep:
         want3 = dt_agree(toks3, texts3)
         wv3 = _dt.datetime(*want3) if isinstance(want3, tuple) else want3
         judge(sw, "datetime", Datetime, toks3, texts3, wv3, dt_kinds(toks3, texts3, want3) | {"same-text"}, r, perms=1)
+        # day of year against week of year + weekday (no day of month): two statements of one day, a few days apart
+        t4 = corr_fmt.rand_dt(r).replace(microsecond=0)
+        try:
+            t5 = t4 + _dt.timedelta(days=r.choice([1, 2, 3, 5, 6, 7, -1, -3, 0]))
+        except OverflowError:
+            t5 = t4
+        if t5.year == t4.year and 1000 <= t4.year <= 9999:
+            wk, wd = r.choice([("%U", "%w"), ("%W", "%u"), ("%W", "%w"), ("%U", "%u")])
+            toks4 = ["%Y", r.choice(["%j", "%-j"]), wk, wd]
+            tt4, tt5 = dt_tuple(t4), dt_tuple(t5)
+            texts4 = [spec.strftime_spec(toks4[0], tt4), spec.strftime_spec(toks4[1], tt4), spec.strftime_spec(wk, tt5), spec.strftime_spec(wd, tt5)]
+            want4 = dt_agree(toks4, texts4)
+            wv4 = _dt.datetime(*want4) if isinstance(want4, tuple) else want4
+            judge(sw, "datetime", Datetime, toks4, texts4, wv4, dt_kinds(toks4, texts4, want4) | {"doy-vs-week"}, r, perms=2)
         # Storage ----------------------------------------------------------------------------------
         toks, texts, bits = storage_case(r)
         judge(sw, "storage", Storage, toks, texts, decimal.Decimal(bits), set(), r, value_eq=lambda a, b: a == b)
